@@ -100,7 +100,8 @@ Proof. vm_compute. eexists. eexists. repeat split; reflexivity. Qed.
 (* THE FRAME THEOREM: across ANY RPC (all 17 kinds, any arguments, any Pythia answer, success or failure), every trial that is
    stored before and after the call has evolved by a legal transition: same id and parameters, state moved along
    REQUESTED -> ACTIVE -> STOPPING -> SUCCEEDED | INFEASIBLE or stayed, and a completed trial kept its state, measurements and
-   final measurement.  For every state with unique study keys and unique trial ids ... *)
+   final measurement; a trial that is not REQUESTED keeps its owner (client).  For every state with unique study keys and
+   unique trial ids ... *)
 Theorem C01_frame : forall s ro k n n' id t t', wf s -> wf_t s ->
   get_node k (nodes s) = Some n -> get_node k (nodes (step_state s ro)) = Some n' ->
   get_trial id (n_trials n) = Some t -> get_trial id (n_trials n') = Some t' -> trans_ok t t'.
